@@ -13,3 +13,6 @@ env = dict(os.environ); env.update(kani.KANI_ENV)
 cmd = ["cargo", "kani", "-Z", "stubbing", "-Z", "unstable-options", "--no-assertion-reach-checks", "--output-format", "terse",
        "--harness-timeout", "600s", "--exact", "--harness", sys.argv[2]] + sys.argv[3:]
 subprocess.run(cmd, cwd=repo, env=env)
+if os.environ.get('DBG_KEEP') != '1':
+    import shutil
+    shutil.rmtree(d, ignore_errors=True)
